@@ -10,14 +10,20 @@ pub mod c06;
 pub mod c07;
 pub mod c08;
 pub mod c09;
+pub mod c10;
 pub mod c11;
 pub mod c12;
 pub mod c13;
 pub mod c14;
 pub mod c15;
+pub mod c16;
 pub mod c18;
+pub mod c19;
 pub mod c20;
+pub mod common_term;
+pub mod viewgen;
 pub mod dec_common;
+pub mod pty;
 
 pub fn dispatch(cmd: &str, id: &str, pos: &[String], flags: &HashMap<String, String>) -> i32 {
     use crate::run_prop;
@@ -31,12 +37,15 @@ pub fn dispatch(cmd: &str, id: &str, pos: &[String], flags: &HashMap<String, Str
         "C07" => run_prop::<c07::C07>(cmd, pos, flags),
         "C08" => run_prop::<c08::C08>(cmd, pos, flags),
         "C09" => run_prop::<c09::C09>(cmd, pos, flags),
+        "C10" => run_prop::<c10::C10>(cmd, pos, flags),
         "C11" => run_prop::<c11::C11>(cmd, pos, flags),
         "C12" => run_prop::<c12::C12>(cmd, pos, flags),
         "C13" => run_prop::<c13::C13>(cmd, pos, flags),
         "C14" => run_prop::<c14::C14>(cmd, pos, flags),
         "C15" => run_prop::<c15::C15>(cmd, pos, flags),
+        "C16" => run_prop::<c16::C16>(cmd, pos, flags),
         "C18" => run_prop::<c18::C18>(cmd, pos, flags),
+        "C19" => run_prop::<c19::C19>(cmd, pos, flags),
         "C20" => run_prop::<c20::C20>(cmd, pos, flags),
         _ => {
             eprintln!("unknown property {id}");
